@@ -1227,7 +1227,8 @@ impl Acl {
     let mut total = 0;
 
     for (_, allowed_users) in self.allow_lists.iter() {
-      total += allowed_users.len();
+      // A domain without users is one (bare-domain) entry of the allow list.
+      total += allowed_users.len().max(1);
     }
 
     total
